@@ -176,13 +176,33 @@ fn of_slice(r: Result<&[u8], DltParseError>) -> Outcome {
     }
 }
 
-/// how the reader under test is constructed
-pub fn capacities(kind: u8) -> Option<(usize, usize)> {
-    match kind % 4 {
+/// how the reader under test is constructed: (buffer capacity, maximal message length), `None` = `::new`
+pub fn capacities(kind: u8, stream: &[u8], storage: bool) -> Option<(usize, usize)> {
+    match kind % 6 {
         0 => None, // ::new
         1 => Some((65551, 65551)),
         2 => Some((70000, 65551)),
-        _ => Some((1 << 20, 70000)),
+        3 => Some((1 << 20, 70000)),
+        // "tight" readers: the scratch buffer is exactly as long as the longest message the stream declares and the
+        // BufReader is (almost) as small, so that its buffer wraps inside headers and payloads all the time.  Legal
+        // use of with_capacity needs max_len >= every declared message (the reader debug_asserts it), so streams
+        // with a hostile / over-long declared length fall back to the documented capacity.
+        k => {
+            let s = if storage { 16 } else { 0 };
+            let (mut pos, mut max) = (0usize, s + 4);
+            loop {
+                if stream.len() - pos < s + 4 {
+                    break;
+                }
+                let len = u16::from_be_bytes([stream[pos + s + 2], stream[pos + s + 3]]) as usize;
+                if len < 4 || stream.len() - pos < s + len {
+                    return Some((65551, 65551));
+                }
+                max = max.max(s + len);
+                pos += s + len;
+            }
+            Some((max + if k == 4 { 0 } else { 7 }, max))
+        }
     }
 }
 
@@ -193,7 +213,7 @@ pub fn drive_blocking(stream: &[u8], storage: bool, sched: &Schedule, reader_kin
     let mut out = vec![];
     let bound = stream.len() / 4 + 3;
     let res = guard(|| {
-        let mut reader = match capacities(reader_kind) {
+        let mut reader = match capacities(reader_kind, stream, storage) {
             None => DltMessageReader::new(src, storage),
             Some((b, m)) => DltMessageReader::with_capacity(b, m, src, storage),
         };
@@ -251,7 +271,7 @@ pub fn drive_async(stream: &[u8], storage: bool, sched: &Schedule, reader_kind: 
     // every poll either delivers >= 1 byte, reaches end of input, or is one of the scheduled stalls
     let budget = 2 * sched.steps.len() + 2 * stream.len() + 64;
     let res = guard(|| {
-        let mut reader = match capacities(reader_kind) {
+        let mut reader = match capacities(reader_kind, stream, storage) {
             None => DltStreamReader::new(src, storage),
             Some((b, m)) => DltStreamReader::with_capacity(b, m, src, storage),
         };
@@ -350,20 +370,47 @@ pub fn stream(storage: bool) -> BoxedStrategy<Vec<u8>> {
         }
         b
     };
+    let big = move || g::message(g::MsgParams { storage: st, ..Default::default() });
     prop_oneof![
         // well-formed sequences
-        5 => msgs(0..8).prop_map(move |ms| cat(&ms)),
+        20 => msgs(0..8).prop_map(move |ms| cat(&ms)),
+        // long streams (more bytes than the buffers of the small readers hold): many small messages, or a few large ones
+        1 => prop_oneof![
+            (vec(g::message(g::MsgParams { storage: st, large: false, ..Default::default() }), 150..400), any::<u16>()).prop_map(move |(ms, t)| {
+                let mut b = cat(&ms);
+                if t < 16384 {
+                    let k = (t as usize * 4 * (b.len() + 1)) >> 16;
+                    b.truncate(k);
+                }
+                b
+            }),
+            (vec(prop_oneof![big(), g::message(g::MsgParams { storage: st, large: false, ..Default::default() })], 3..8), any::<u64>()).prop_map(move |(mut ms, s)| {
+                // stretch non-verbose / control payloads so that the stream is long
+                for (i, m) in ms.iter_mut().enumerate() {
+                    if let RPayload::NonVerbose(_, d) | RPayload::Control(_, d) = &mut m.payload {
+                        let hdr = m.htyp;
+                        let room = 65535 - headers_len(hdr) - 5;
+                        let want = 20_000 + ((s >> (i * 8)) as usize & 0x7fff);
+                        if d.len() < want {
+                            d.extend(crate::util::expand_bytes(s ^ i as u64, want.min(room) - d.len().min(want.min(room)), 1));
+                        }
+                        m.len = (headers_len(hdr) + refcodec::payload_len(m)) as u16;
+                    }
+                }
+                cat(&ms)
+            }),
+        ],
         // truncated at an arbitrary offset
-        4 => (msgs(1..6), any::<u16>()).prop_map(move |(ms, t)| {
+        16 => (msgs(1..6), any::<u16>()).prop_map(move |(ms, t)| {
             let mut b = cat(&ms);
             let k = (t as usize * (b.len() + 1)) >> 16;
             b.truncate(k);
             b
         }),
         // hostile bytes
-        3 => gb::hostile_small(storage),
+        12 => gb::hostile_small(storage),
         // hostile length fields between good messages
-        3 => (msgs(0..4), any::<u8>(), prop_oneof![3 => 0u16..4, 2 => 4u16..30, 1 => Just(65535u16), 1 => any::<u16>()], vec(any::<u8>(), 0..40), msgs(0..3)).prop_map(
+        12 => (msgs(0..4), any::<u8>(), prop_oneof![3 => 0u16..4, 2 => 4u16..30, 1 => Just(65535u16), 1 => any::<u16>()], vec(any::<u8>(), 0..40), msgs(0..3)).prop_map(
             move |(a, htyp, len, body, b)| {
                 let mut out = cat(&a);
                 if storage {
